@@ -108,7 +108,7 @@ def run(tier):
         def shard(i):
             outp = os.path.join(sd, 'out_%d.json' % i)
             r = vlib.run_cmd([binp, 'run', '-cases', casep, '-out', outp, '-seed', str(seed), '-shard', '%d/%d' % (i, nsh),
-                              '-tier', tier, '-reps', '1', '-reps-short', '2'], timeout=800, env=env)
+                              '-tier', tier, '-reps', '1', '-reps-short', '1' if quick else '2'], timeout=800, env=env)
             if r.returncode != 0 or not os.path.exists(outp):
                 raise vlib.Infra('c10 driver shard %d failed (rc %s): %s' % (i, r.returncode, (r.stdout + r.stderr)[-2000:]))
             return json.load(open(outp))
